@@ -464,6 +464,11 @@ def generate(vc_path, out_dir, canary=False):
                     keep.append(a)
                 else:
                     dropped.append("%s %s: %s" % (kind, name, a))
+            if "#[default]" in body:
+                body = body.replace("#[default]", "")
+                dropped.append("%s %s: #[default] variant markers (derive(Default) dropped)" % (kind, name))
+            if "#[non_exhaustive]" in body:
+                body = body.replace("#[non_exhaustive]", "")
             for a in keep:
                 out.add(a + "\n", section="item")
             if opts.get("external_body"):
